@@ -206,6 +206,48 @@ pub fn chk_result(cx: &Ctx) -> Vec<Viol> {
     vs
 }
 
+/// Wrapped sources: every source position is handed out at most once and lies inside the source
+/// (deterministic evidence for "elements handed out twice", whatever the duplicated reads produce).
+pub fn chk_pulls(cx: &Ctx) -> Vec<Viol> {
+    let mut vs = Vec::new();
+    if !cx.case.src.wrapped() || cx.case.endless {
+        return vs;
+    }
+    let n = cx.obs.eff_input.len() as i64;
+    let mut ranges: Vec<(i64, i64, u16)> = Vec::new();
+    let mut total = 0i64;
+    for e in &cx.obs.rec.log {
+        if e.kind == OpKind::Pull && e.r1 > 0 && e.r1 != sched::UNSET {
+            total += e.r1;
+            if e.r0 >= 0 {
+                ranges.push((e.r0, e.r0 + e.r1, e.thread));
+            }
+        }
+    }
+    // eager stages pull from a materialised intermediate whose length is not the source's: only one-pass pipelines
+    if chains::INFO[cx.case.chain].2 == 0 && total > n {
+        vs.push(v("source-position-twice", format!("the pulls of this run obtained {} elements from a source of {}: elements handed out twice", total, n)));
+        return vs;
+    }
+    if chains::INFO[cx.case.chain].2 != 0 {
+        return vs;
+    }
+    ranges.sort();
+    for w in ranges.windows(2) {
+        if w[1].0 < w[0].1 {
+            vs.push(v(
+                "source-position-twice",
+                format!("source positions {}..{} were handed to thread {} and positions {}..{} to thread {}: elements handed out twice", w[0].0, w[0].1, w[0].2, w[1].0, w[1].1, w[1].2),
+            ));
+            break;
+        }
+    }
+    if let Some(r) = ranges.iter().find(|r| r.1 > n) {
+        vs.push(v("source-position-twice", format!("a pull obtained positions {}..{} of a source of length {}", r.0, r.1, n)));
+    }
+    vs
+}
+
 fn stage_multiset(calls: &[Call], stages: std::ops::Range<u8>) -> BTreeMap<(u8, u64), u32> {
     let mut m = BTreeMap::new();
     for c in calls {
